@@ -33,7 +33,8 @@ const PREFIX: &[u8] = b"~~~~~~~~EXECDIVIDER::";
 const PLACEHOLDERS: [&str; 6] = ["{state_directory}", "{name}", "{excluded_variables}", "{environment_names}", "{persist_state}", "{shell_expression}"];
 /// the configured environment of the rendered test cases; `RENDER_ENV_NAMES` is what must reach the template
 const RENDER_ENV: [(&str, &str); 5] = [("VAR_A", "1"), ("B2", "{shell_expression}"), ("bad-name", "y"), ("9x", "z"), ("_u", "")];
-const RENDER_ENV_NAMES: &str = "B2 VAR_A _u";
+/// (the runner adds SHELL, which it sets for every execution, behind the configured names: fix c3d6e8d)
+const RENDER_ENV_NAMES: &str = "B2 VAR_A _u SHELL";
 const SENTINEL: &str = "\u{1}SENTINEL\u{2}";
 const BASH: &str = "/bin/bash";
 /// salt the generated streams are written with (the replay shell substitutes the real one)
